@@ -22,6 +22,8 @@ func ToBalloonProof
   ensures C02,C13/history-index: result.HistoryProof != nil && result.HistoryProof.Index == mr.ActualVersion && result.HistoryProof.Version == mr.QueryVersion
   ensures C02,C13/hyper-key: result.HyperProof != nil && bytes(result.HyperProof.Key) == bytes(mr.KeyDigest) && result.HyperProof.AuditPath == mr.Hyper
   ensures C12/value-length: len(result.HyperProof.Value) == int(hashlen_fn(hasherF))
+  // the hyper value is rebuilt from the version the event was inserted at (not the queried one)
+  ensures C13/hyper-value-is-the-actual-version: len(result.HyperProof.Value) >= 8 ==> bytes(result.HyperProof.Value[len(result.HyperProof.Value) - 8:]) == be64(mr.ActualVersion)
 
 func ToIncrementalProof
   props C03 C12 C13
